@@ -193,6 +193,14 @@ def convert_events(evs, attach_calls=True):
         if pending_spills and e.get("e") in ("SAdd", "SIter", "SWrite", "SDestroy"):
             e["spills"] = pending_spills
             pending_spills = []
+        if e.get("e") in ("FsInit", "FsDup"):
+            iv = e["interval"]
+            e["interval"] = 2147483647 if iv == "never" else 60 if iv == "default" else int(iv)
+            e["fnfilter"] = [] if e["fnfilter"] == "-" else list(e["fnfilter"].encode())
+        if e.get("e") == "SetFile":
+            d = os.path.dirname(e["path"])
+            e["abs"] = [n if n.startswith("/") else os.path.join(d, n) for n in e["names"]]
+            e["bcs"] = [ord(os.path.basename(n)[0]) for n in e["names"]]
         if e.get("e") == "SInit":
             e["tmpdir"] = list(e["tmpdir"].encode())
             e["maxmem"] = 1073741824 if e["maxmem"] == "default" else min(int(e["maxmem"]), 2000000000)
